@@ -64,20 +64,21 @@ type SimStore struct {
 	base corekv.TxnStore
 	log  *durableLog
 
-	mu      sync.Mutex
-	fenced  bool
-	occ     map[string]int
-	sites   []Site // recorded sites of the current window (if recording)
-	record  bool
-	failAt  map[string]error // Site.String() -> error to inject (once)
-	failNth map[string]int   // kind -> fail when this many operations of the kind have been seen (once)
-	kindCnt map[string]int
-	nthErr  map[string]error
-	fenceAfter int // >0: fence the store after this many more successful commits
-	dir     string // non-empty: badger on this directory (real close / reopen)
-	fired   []Site
-	opCount int
+	mu         sync.Mutex
+	fenced     bool
+	occ        map[string]int
+	sites      []Site // recorded sites of the current window (if recording)
+	record     bool
+	failAt     map[string]error // Site.String() -> error to inject (once)
+	failNth    map[string]int   // kind -> fail when this many operations of the kind have been seen (once)
+	kindCnt    map[string]int
+	nthErr     map[string]error
+	fenceAfter int    // >0: fence the store after this many more successful commits
+	dir        string // non-empty: badger on this directory (real close / reopen)
+	fired      []Site
+	opCount    int
 
+	raw func(Site)
 	// Leaks: creation sites of iterators that were still open when their transaction was discarded.
 	Leaks []string
 	// Yield is called before each operation when set (E4b parks tasks here).
@@ -243,8 +244,21 @@ func (s *SimStore) OpCount() int {
 	return s.opCount
 }
 
+// SetRaw switches the store to the scheduler mode of E4b: an operation only yields to the
+// scheduler; no bookkeeping, no lock (a lock here would be a happens-before edge between tasks
+// that the system under test does not have).
+//
+//go:norace
+func (s *SimStore) SetRaw(y func(Site)) { s.raw = y }
+
 // op is called before every storage operation.
+//
+//go:norace
 func (s *SimStore) op(kind string, key []byte) error {
+	if y := s.raw; y != nil {
+		y(Site{Kind: kind})
+		return nil
+	}
 	s.mu.Lock()
 	if s.fenced {
 		s.mu.Unlock()
